@@ -151,7 +151,9 @@ class File(Component):
                 if not any(m in self.mode for m in ('a', '+')):
                     self.close()
                 else:
-                    self._poller.discard(self._fd)
+                    # stop watching for input only (discard() would also drop
+                    # the interest in writing what is still buffered)
+                    self._poller.removeReader(self._fd)
         except OSError as exc:
             if exc.args[0] in (EWOULDBLOCK, EINTR):
                 return
